@@ -243,8 +243,11 @@ class C02(Prop):
                   "SAVEC bound on yytext, identifier sem_value references and bindings in every name space (local / function / global / class) with the "
                   "dirty list of permanent identifiers; the lexer's text buffers (add_input in place / linked buffer, macro argument "
                   "collector, macro body expansion, #define text, text block terminator, #include MACRO hops) and the code "
-                  "emitter's cursor (every ins_* width against the block end and the doubling); for ALL event sequences / character streams every table access "
-                  "is inside its allocation and end-of-compile cleanup restores the initial configuration.  The model is "
+                  "emitter's cursor (every ins_* width against the block end and the doubling); the widths of the counters the grammar keeps on bison's stack; "
+                  "for ALL event sequences / character streams every table access "
+                  "is inside its allocation and the end-of-compile sequence puts EVERY machine of the model back into its initial state (compiler_state_reset).  "
+                  "The grammar's function-literal actions, add_local_name and reallocate_locals are translated from their source text on every run "
+                  "(test expressions, operands, statement order, C types) and tied to the model steps by bridging theorems.  The model is "
                   "tied to the source by regenerated constants and by replaying the event stream emitted by the real "
                   "compiler (hook H3) through the model: every (cursor, size) pair must be reproduced, incl. every add_input call; "
                   "slack constants, guard presence and the reserved / written width of every ins_* are regenerated on every run.  The Lean oracle "
@@ -273,10 +276,10 @@ class C02(Prop):
                    "macro argument / body / #define text / terminator cursors: proved in the model over regenerated guards, on the real driver only the final cursor is observed",
                    "bison parser stacks (YYMAXDEPTH), parse trees, upd_* jump patching and switch tables: sanitizer-observed only; the emitter's ins_* cursor is model + obligation + boundary sweep (no trace point)",
                    "termination of compilation: observed with a 20 s per-case timeout, not proved (only #include MACRO hops are proved bounded)",
-                   "probe-program reusability check is exploration (one fixed probe + adaptive probe of at most 24 declared names), not proof; no single theorem 'state after cleanup = initial state' over all machines at once",
-                   "MaxLocalVariables > 127 (num_local is saved in a `char` by the grammar) is not explored",
+                   "probe-program reusability check is exploration (one fixed probe + adaptive probe of at most 24 declared names); the model-level statement compiler_state_reset is proved, its tie to the driver is the trace replay",
+                   "MaxLocalVariables above 255 (run-time function headers keep num_local in an unsigned char) is outside this check; 128..255 is explored with one configuration (200)",
                    "errors raised by LPC code called during compilation (master log_error etc.) leave compile_file()'s static guard set; not explored",
-                   "size_t / short overflow of counters (sem_value is a short) is not modelled"]
+                   "16-bit sem_value: not proved (analysis in notes: bounded by MaxLocalVariables x YYMAXDEPTH, no wrap at the default 25)"]
 
     # ---- generated Lean beyond plain constants --------------------------------
     def gen_extra(self, ctx, bdir):
